@@ -27,6 +27,29 @@ func VerifPriority(
 	return cand.TypePreference(), cand.LocalPreference(), cand.Priority()
 }
 
+// VerifPriorityRestated reads the three values of a bare candidate once with another component and without
+// an agent, then sets the component, attaches the agent (if any) and reads them again: what a candidate
+// reports must follow its current configuration.
+func VerifPriorityRestated(
+	typ CandidateType, nt NetworkType, tcp TCPType, relayProto string,
+	hasAgent bool, offset uint16, component uint16, firstComponent uint16,
+) (uint16, uint16, uint32) {
+	cand := &candidateBase{
+		candidateType:        typ,
+		networkType:          nt,
+		tcpType:              tcp,
+		component:            firstComponent,
+		relayLocalPreference: relayProtocolPreference(relayProto),
+	}
+	_, _, _ = cand.TypePreference(), cand.LocalPreference(), cand.Priority()
+	cand.SetComponent(component)
+	if hasAgent {
+		cand.currAgent = &Agent{tcpPriorityOffset: offset}
+	}
+
+	return cand.TypePreference(), cand.LocalPreference(), cand.Priority()
+}
+
 // VerifPairPriority returns the priority of a pair of the given candidates.
 func VerifPairPriority(local, remote Candidate, controlling bool) uint64 {
 	return newCandidatePair(local, remote, controlling).priority()
